@@ -44,6 +44,7 @@ RULES[("stateful_set_utils.go", 268)] = "outside: which revision a pod (re)creat
 for l in (285, 297, 319, 328, 345, 350):
     RULES[("stateful_set_utils.go", l)] = "dead: error branch of encoding / decoding / patching the set's own template, which cannot fail for a decodable object"
 RULES[("stateful_set_utils.go", 373)] = "equiv: skips the status write only when updatedReplicas alone or currentRevision alone differs from the stored status; in every execution produced another field differed too (a pod changing revision also changes readiness; completing a rollout also changes currentReplicas), and the fixed-point census of C12 found the stored counters exact"
+RULES[("stateful_set_utils.go", 374)] = "equiv: skips the status write only when currentRevision alone or updateRevision alone differs; a new update revision comes with a new generation (observedGeneration differs) and a completed rollout changes currentReplicas as well"
 RULES[("expansion_generated.go", 61)] = "dead: a lister List never fails"
 RULES[("expansion_generated.go", 68)] = "dead: the list is already scoped to the pod's namespace"
 for l in (76, 89, 102, 114, 122, 138, 150, 239, 240, 248, 253, 262, 267, 276, 281, 294, 299):
